@@ -1,6 +1,7 @@
 """Verification driver: explores all paths of a function under contract, aggregates obligations."""
 from __future__ import annotations
 
+import os
 import time
 import traceback
 
@@ -41,6 +42,11 @@ class FunctionResult:
         )
         rec["instances"] += 1
         rec["ms"] += ob.ms
+        if getattr(ob, "second", None):
+            sec = rec.setdefault("second", {})
+            for be, verdict in ob.second.items():
+                sec.setdefault(be, {}).setdefault(verdict, 0)
+                sec[be][verdict] += 1
         order = {"discharged": 0, "undischarged": 1, "refuted": 2}
         if order[ob.status] > order[rec["status"]]:
             rec["status"] = ob.status
@@ -102,6 +108,10 @@ def merge_results(parts):
             order = {"discharged": 0, "undischarged": 1, "refuted": 2}
             cur["instances"] += rec["instances"]
             cur["ms"] += rec["ms"]
+            for be, vs in (rec.get("second") or {}).items():
+                tgt = cur.setdefault("second", {}).setdefault(be, {})
+                for verdict, n in vs.items():
+                    tgt[verdict] = tgt.get(verdict, 0) + n
             if order[rec["status"]] > order[cur["status"]]:
                 for k in ("status", "detail", "model", "inputs", "path"):
                     cur[k] = rec.get(k)
@@ -143,9 +153,17 @@ def verify_function(program, registry, spec, opts=None, work=None, expand_to=Non
         return res
     res.file_sha = program.file_sha.get(fi.module) if fi is not None else None
     res.ast_hash = fi.ast_hash() if fi is not None else None
+    from .values import FUNCTION_DEADLINE
+
+    if work is None:
+        FUNCTION_DEADLINE[0] = time.time() + float(opts.get("function_budget_s", 900))
     work = [[]] if work is None else list(work)
     seen = 0
     while work:
+        if FUNCTION_DEADLINE[0] is not None and time.time() > FUNCTION_DEADLINE[0]:
+            res.out_of_reach = (f"exploring this function took more than {float(opts.get('function_budget_s', 900)):.0f} s (engine budget: the number of paths through the "
+                                "current code is beyond what the executor can enumerate, e.g. a loop that is unrolled because no invariant is attached to it)")
+            break
         if expand_to is not None and len(work) >= expand_to:
             res.pending = work
             break
@@ -166,10 +184,32 @@ def verify_function(program, registry, spec, opts=None, work=None, expand_to=Non
         )
         I = Interp(program, registry, ctx, top=fi)
         I.top_label = spec.label
+        from .values import PATH_BUDGET_S, FrameEscape, PathBudget, arm_path_timer, disarm_path_timer
+
+        PATH_BUDGET_S[0] = float(opts.get("path_budget_s", 300))
+        arm_path_timer()
         try:
-            run_path(I, ctx, spec, fi, res)
+            try:
+                run_path(I, ctx, spec, fi, res)
+            finally:
+                disarm_path_timer()
+        except PathBudget as e:
+            if os.environ.get("PYVC_TRACE_SLOW"):
+                print(f"[path budget] {spec.label}: engine was at {e}", flush=True)
+            # never a verdict by itself: the function's obligations on this path could not be generated in time
+            res.out_of_reach = f"exploring one path took more than {PATH_BUDGET_S[0]:.0f} s (engine budget; the code on this path is beyond what the rope/arith normaliser handles)"
+            work = []  # the remaining paths of this function share the prefix that was too expensive: stop here
         except PathEnd:
             pass
+        except FrameEscape as e:
+            ob = Obligation(f"{spec.label}/frame.state-outside-the-contract", "refuted", str(e))
+            try:  # inputs that drive the real code to this point (replayed against the contract's expected value)
+                r_, m_ = ctx.solver.model()
+                if m_ is not None and ctx.concretizer is not None:
+                    ob.inputs = ctx.concretizer(m_)
+            except Exception:
+                pass
+            ctx.obligations.append(ob)
         except OutOfReach as e:
             res.out_of_reach = str(e)
             try:  # inputs that drive the real code to the point the verifier could not follow
@@ -294,9 +334,21 @@ def run_path(I: Interp, ctx: PathCtx, spec, fi, res: FunctionResult):
         if isinstance(result, Coro):
             result = result.value
     except PyRaise as e:
-        _check_exceptional(I, ctx, c, base, e.exc)
+        try:
+            _check_exceptional(I, ctx, c, base, e.exc)
+        except PyRaise as e2:
+            _spec_failed(ctx, base, e2)
         return
-    _check_normal(I, ctx, c, base, result, ghost0)
+    try:
+        _check_normal(I, ctx, c, base, result, ghost0)
+    except PyRaise as e2:
+        _spec_failed(ctx, base, e2)
+
+
+def _spec_failed(ctx, base, e):
+    """A postcondition could not even be evaluated on this path: the reference computation inside the contract (which runs repo
+    code, e.g. a decoder applied to the bytes the function produced) raised. The clause is not accepted."""
+    ctx.prove(f"{base}/post.evaluable", False, detail=f"evaluating the postcondition raised {e.exc.type_name} at {getattr(e.exc, 'origin', '?')}: the result does not have the specified form")
 
 
 def _check_normal(I, ctx, c, base, result, ghost0):
